@@ -249,7 +249,18 @@ def gen_outside(rng):
     simple CASE, concatenation): judged sqlite-vs-sqlite (original text against rendered text)"""
     ig, t = rng.choice(c08.ALL_TABLES)
     c1, c2, c3 = (rng.choice(COLS) for _ in range(3))
-    k = rng.randrange(12)
+    k = rng.randrange(15)
+    if k >= 12:
+        # operand grouping for every arithmetic operator of the renderer, `%` included: fully parenthesised operands in the original
+        def rex(depth=0):
+            if depth >= 3 or rng.random() < 0.35:
+                return rng.choice([c1, c2, c3, str(rng.randint(1, 7))])
+            op = rng.choice(['+', '-', '*', '%', '%', '%'])
+            a, b = rex(depth + 1), rex(depth + 1)
+            a = f'({a})' if ' ' in a else a
+            b = f'({b})' if ' ' in b else b
+            return f'{a} {op} {b}'
+        return f'select {rex()} as v, {rex()} as w from {ig}.{t} where {rex()} {rng.choice(["=", "<", ">=", "<>"])} {rex()}'
     if k == 0:
         fn = rng.choice(['row_number()', 'rank()', 'dense_rank()', f'sum({c3})', f'count({c3})', f'max({c3})', f'min({c3})', f'lag({c3})', f'lead({c3})'])
         part = rng.choice(['', f'partition by {c1} ', f'partition by {c1}, {c2} '])
